@@ -23,7 +23,7 @@ def run(ctx):
              {"Depth2Firsts": '{"lam1", "lam2", "def1", "def2", "par1", "par1b", "par2"}', "SecondOps": '"all"'}
     cases_file, cases = p3.generate(ctx, "FluentNames", consts)
     ctx.log(f"{len(cases)} cases", dict(Counter(c["kind"] for c in cases)))
-    results = [result_of(c) for c in cases]
+    cases, results = p3.execute(ctx, cases, cases_file, result_of)
     rf = ctx.scratch / "c14_results.json"
     rf.write_text(json.dumps(results))
     ctx.log("results written")
